@@ -9,6 +9,8 @@ from . import rules_own as RO
 from . import rules_link as RL
 from . import rules_hash as RH
 from . import rules_bits as RBI
+from . import rules_str as RST
+from . import rules_parse as RP
 
 
 def need_unit(ctx, name, w1=False, **kw):
@@ -180,4 +182,65 @@ def C18(ctx):
             "with std::bitset, the random streams, sortedness.")
 
 
-PROPS = {"C18": C18, "C14": C14, "C13": C13, "C16": C16, "C10": C10, "C09": C09, "C11": C11, "C12": C12, "C05": C05, "C04": C04}
+def C15(ctx):
+    u = need_unit(ctx, "string")
+    RST.check_string_buffers(ctx, u)
+    RST.check_views(ctx, u)
+    RG.check_swap(ctx, u, ["frg::basic_string"])
+    RO.check_empty(ctx, u, ["frg::basic_string"])
+    if ctx.tier == "thorough":
+        u2 = need_unit(ctx, "string", extra_flags=("-DFRG_VERIF_WIDE",), tag="wide")
+        RST.check_string_buffers(ctx, u2, tag=" [char16_t]", only_chart="char16_t")
+    return ("Structural clauses of C15: copy counts within the source extent (a view's terminator is not readable), writes "
+            "within the allocation with sizeof(Char) symbolic, terminator written when a buffer is installed, non-null buffer, "
+            "bounded view subscripts, overflow-safe sub_string assertion, guarded prefix/suffix slicing, length-first compare. "
+            "Not decided: equality with a reference string for every content.")
+
+
+def C20(ctx):
+    uf = need_unit(ctx, "format")
+    us = need_unit(ctx, "string")
+    ctx.rule("B7.cursor", "printf_format: every advance of the format cursor and every look-ahead is justified by characters "
+             "verified non-NUL on every path (assertions and comparisons)", 20)
+    for f in uf.fns(uq="frg::printf_format"):
+        RP.check_cursor(ctx, "B7.cursor", f)
+    ctx.rule("B.view-index", "fmt()/{}-spec parser: every subscript of the format view is dominated by index < size()", 4)
+    RP.check_view_index_bounded(ctx, "B.view-index", [f for f in uf.functions if "fmt_impl" in f.uq or "fmt_impl" in (f.owner_cls or "") or f.uq.startswith("frg::parse_arguments")])
+    ctx.rule("W.cmdline-api-only", "parse_arguments touches the command line only through find_first/sub_string/size/"
+             "comparison: no subscript, no pointer arithmetic", 2)
+    RP.check_cmdline_api_only(ctx, "W.cmdline-api-only", uf)
+    ctx.rule("B5.substring-assert", "sub_string() guards its pointer arithmetic with an assertion that cannot wrap", 1)
+    ctx.rule("B.view-subscript-bounded", "view searches stay inside [0, length)", 6)
+    ctx.rule("E.prefix-suffix-guard", "starts_with/ends_with slice only under other.size() <= size()", 2)
+    ctx.rule("E.compare-length-first", "compare() decides on lengths first", 2)
+    RST.check_views(ctx, us)
+    ctx.rule("B6.accumulate", "numbers accumulated from input digits (to_number, printf width/precision, {} width/position) "
+             "use an unsigned accumulator or are overflow-checked / bounded before each step", 5)
+    RST.check_accumulation(ctx, "B6.accumulate", [f for f in us.functions if f.name == "to_number"],
+                           label=lambda f: "%s<%s>" % (f.uq, f.get("targs", "").strip("<>")))
+    RST.check_accumulation(ctx, "B6.accumulate", uf.fns(uq="frg::printf_format") +
+                           [f for f in uf.functions if f.name == "parse_fmt_spec"])
+    ctx.rule("R.self-recursion", "no parser or helper calls itself on every path", 0)
+    RBI.check_self_recursion(ctx, uf, [f for f in uf.functions if f.uq.startswith("frg::")])
+    RBI.check_self_recursion(ctx, us, [f for f in us.functions if f.uq.startswith("frg::")])
+    ctx.rule("R.loop-progress", "every loop nest of printf_format advances the cursor (or its look-ahead counter)", 1)
+    for f in uf.fns(uq="frg::printf_format"):
+        sd = [p["d"] for p in f.params() if p["n"] == "s"][0]
+        RP.check_loop_progress(ctx, "R.loop-progress", f, lambda n: (n.kind in ("UnaryOperator", "CompoundAssignOperator")
+                               and n.get("op") in ("++", "+=")))
+    return ("Structural clauses of C20. Not decided: absence of all undefined behaviour; bounds of the caller's arg_list.")
+
+
+def C19(ctx):
+    uf = need_unit(ctx, "format")
+    RP.check_int_conversion_table(ctx, uf)
+    RP.check_agent_discipline(ctx, uf)
+    RP.check_fmt_spec(ctx, uf)
+    RP.check_logger(ctx, uf)
+    return ("Structural rim of C19 only: the length-modifier table of the integer conversions (every modifier handled, widths "
+            "and signedness, sibling agreement), exactly one argument popped per conversion, agent results tested and "
+            "propagated, accepted {}-conversion letters and echo sites, logger buffer writes guarded and flushed in order. "
+            "NOT decided: byte-for-byte agreement with ISO C printf (a numeric/string result over runtime values).")
+
+
+PROPS = {"C19": C19, "C20": C20, "C15": C15, "C18": C18, "C14": C14, "C13": C13, "C16": C16, "C10": C10, "C09": C09, "C11": C11, "C12": C12, "C05": C05, "C04": C04}
